@@ -226,3 +226,33 @@ _LIST_ATOM = _re.compile(r"python_version (not in|in) [\"']([^\"']*)[\"']")
 def text_list_atoms(text):
     """in/not-in list atoms occurring in a rendered marker (for the M4 row predicate)."""
     return [{"var": "python_version", "op": op, "val": val, "rev": False} for op, val in _LIST_ATOM.findall(text)]
+
+
+# --------------------------------------------------------------------------
+# known finding S4a seen through markers: a range [lo, X.postN) with inclusive lo renders as ~=lo, so a merge of
+# `V >= lo` (or ~=, or a wildcard) with `V < "X.postN"` on one version variable loses the versions X .. X.postN
+_PY = ("python_version", "python_full_version")
+
+
+def case_atoms(obj):
+    """Every atom dict anywhere inside a case (pairs, families, texts, triples, pools)."""
+    if isinstance(obj, dict):
+        if {"var", "op", "val"} <= obj.keys():
+            yield obj
+        else:
+            for v in obj.values():
+                yield from case_atoms(v)
+    elif isinstance(obj, (list, tuple)):
+        for v in obj:
+            yield from case_atoms(v)
+
+
+def s4a_case(case) -> bool:
+    atoms = list(case_atoms(case))
+    for a in atoms:
+        if a["op"] == "<" and "post" in a["val"]:
+            fam = _PY if a["var"] in _PY else (a["var"],)
+            for b in atoms:
+                if b is not a and b["var"] in fam and (b["op"] in (">=", "~=") or (b["op"] == "==" and b["val"].endswith(".*"))):
+                    return True
+    return False
